@@ -65,9 +65,45 @@ theorem getSeq_of_mem {s : St} (h : AddrNodup s.seqs) {q : Seq} (hq : q ∈ s.se
     simp at this
   | some q' => rw [h.eq_of_mem (getSeq_mem hf) hq (getSeq_addr hf)]
 
+/-- the sequencer list is strictly sorted by address -/
+def AddrSorted (l : List Seq) : Prop := l.Pairwise (fun a b => a.addr < b.addr)
+
+theorem AddrSorted.of_addrs_eq {l l' : List Seq} (h : AddrSorted l) (e : l'.map (·.addr) = l.map (·.addr)) : AddrSorted l' := by
+  unfold AddrSorted at *
+  have h1 : (l.map (·.addr)).Pairwise (· < ·) := List.pairwise_map.2 h
+  rw [← e] at h1
+  exact List.pairwise_map.1 h1
+
+theorem sorted_insert (l : List Seq) (x : Seq) (hn : AddrSorted l) (h : ∀ y ∈ l, y.addr ≠ x.addr) :
+    AddrSorted (insertSorted (fun a b => decide (a.addr < b.addr)) x l) := by
+  unfold AddrSorted
+  induction l with
+  | nil => simp [insertSorted]
+  | cons a as ih =>
+    have hp := List.pairwise_cons.1 hn
+    have ha : a.addr ≠ x.addr := h a (by simp)
+    unfold insertSorted
+    by_cases h1 : x.addr < a.addr
+    · simp only [h1, decide_true, if_true]
+      apply List.pairwise_cons.2
+      refine ⟨?_, hn⟩
+      intro y hy
+      rcases List.mem_cons.1 hy with h3 | h3
+      · subst h3; exact h1
+      · exact Nat.lt_trans h1 (hp.1 y h3)
+    · have h2 : a.addr < x.addr := Nat.lt_of_le_of_ne (Nat.le_of_not_lt h1) ha
+      simp only [h1, h2, decide_false, decide_true, Bool.false_eq_true, if_false, if_true]
+      apply List.pairwise_cons.2
+      refine ⟨?_, ih hp.2 (fun y hy => h y (by simp [hy]))⟩
+      intro y hy
+      rcases insertSorted_mem _ _ _ _ hy with h3 | h3
+      · subst h3; exact h2
+      · exact hp.1 y h3
+
 structure Uniq (s : St) : Prop where
   ids : IdsNodup s
   addrs : AddrNodup s.seqs
+  sorted : AddrSorted s.seqs
 
 theorem getRa_setRa_other {s : St} {r : Rollapp} {id : Nat} (hne : r.id ≠ id) : getRa (setRa s r) id = getRa s id := by
   unfold getRa setRa
@@ -130,13 +166,13 @@ theorem IdsNodup.of_ids_eq {s s' : St} (h : IdsNodup s) (e : s'.ras.map (·.id) 
   exact List.pairwise_map.1 h1
 
 theorem Uniq.of_setRa {s : St} (h : Uniq s) (r : Rollapp) : Uniq (setRa s r) :=
-  ⟨h.ids.of_ids_eq (ids_setRa s r), h.addrs⟩
+  ⟨h.ids.of_ids_eq (ids_setRa s r), h.addrs, h.sorted⟩
 
 theorem Uniq.of_setSeq {s : St} (h : Uniq s) (q : Seq) : Uniq (setSeq s q) :=
-  ⟨h.ids, h.addrs.of_addrs_eq (addrs_replace s.seqs q)⟩
+  ⟨h.ids, h.addrs.of_addrs_eq (addrs_replace s.seqs q), h.sorted.of_addrs_eq (addrs_replace s.seqs q)⟩
 
 theorem Uniq.of_eq {s s' : St} (h : Uniq s) (e1 : s'.ras = s.ras) (e2 : s'.seqs = s.seqs) : Uniq s' :=
-  ⟨by unfold IdsNodup; rw [e1]; exact h.ids, by rw [e2]; exact h.addrs⟩
+  ⟨by unfold IdsNodup; rw [e1]; exact h.ids, by rw [e2]; exact h.addrs, by rw [e2]; exact h.sorted⟩
 
 -- ---------------------------------------------------------------- frames
 
@@ -205,6 +241,9 @@ theorem Frame.uniq {s s' : St} (h : Frame s s') (u : Uniq s) : Uniq s' := by
     have := congrArg (List.map (fun k : Nat × Option Addr × Option Addr => k.1)) h.ras
     simpa [List.map_map, Function.comp_def, rkey] using this
   · apply u.addrs.of_addrs_eq
+    have := congrArg (List.map (fun k : Addr × Nat × Bool × Bool × Option Nat => k.1)) h.seqs
+    simpa [List.map_map, Function.comp_def, skey] using this
+  · apply u.sorted.of_addrs_eq
     have := congrArg (List.map (fun k : Addr × Nat × Bool × Bool × Option Nat => k.1)) h.seqs
     simpa [List.map_map, Function.comp_def, skey] using this
 
